@@ -146,8 +146,18 @@ def ensure(repo="/repo", verbose=False):
         return (repo if repo != PRISTINE else None), info
     cache = os.path.join(VERIF, "scratch", "so-cache")
     os.makedirs(cache, exist_ok=True)
-    key = hashlib.sha256((repo + json.dumps(cur, sort_keys=True)).encode()).hexdigest()[:16]
+    # the key covers the repo path, the kernel source hashes and the list of package files (symlinks follow edits)
+    listing = []
+    for dp, dn, fn in os.walk(os.path.join(repo, "mdtraj")):
+        dn[:] = [d for d in dn if d != "__pycache__"]
+        listing += [os.path.relpath(os.path.join(dp, f), repo) for f in fn if not f.endswith((".pyc", ".so"))]
+    key = hashlib.sha256((repo + json.dumps(cur, sort_keys=True) + "\n".join(sorted(listing))).encode()).hexdigest()[:16]
     root = os.path.join(VERIF, "scratch", "overlay", key)
+    if os.path.exists(os.path.join(root, ".ok")):
+        os.utime(os.path.join(root, ".ok"))
+        return root, info
+    final_root = root
+    root = root + f".tmp{os.getpid()}"
     if os.path.isdir(root):
         shutil.rmtree(root)
     os.makedirs(root)
@@ -184,11 +194,25 @@ def ensure(repo="/repo", verbose=False):
                 t = os.path.join(root, n + SUFFIX)
                 if not os.path.lexists(t) and os.path.exists(src):
                     os.symlink(src, t)
-    # drop stale overlays
+    open(os.path.join(root, ".ok"), "w").close()
+    try:
+        os.rename(root, final_root)
+    except OSError:
+        shutil.rmtree(root, ignore_errors=True)  # another process won the race; use its copy
+    root = final_root
+    # drop overlays not used for an hour (never a fresh one: concurrent runs may be using it)
+    import time
+
     odir = os.path.join(VERIF, "scratch", "overlay")
     for d in os.listdir(odir):
-        if d != key:
-            shutil.rmtree(os.path.join(odir, d), ignore_errors=True)
+        pth = os.path.join(odir, d)
+        try:
+            marker = os.path.join(pth, ".ok")
+            age = time.time() - os.path.getmtime(marker if os.path.exists(marker) else pth)
+            if d != key and age > 3600:
+                shutil.rmtree(pth, ignore_errors=True)
+        except OSError:
+            pass
     return root, info
 
 
